@@ -34,15 +34,28 @@ FAULTS = {
 }
 
 
-def failed_write(nold, fault, after):
-    r = ObResult(bounds="%d successful writestr calls, then the faulty call (%s), then %d successful calls, close; sizes symbolic"
-                        % (nold, FAULTS[fault], after))
+def failed_write(nold, fault, after, append=False):
+    """append=True: the session is an APPEND to a reference-written one-member archive read by the real reader"""
+    from vf.harness import extract as X
+    from vf.harness import readcases as RC
+
+    r = ObResult(bounds="%s%d successful writestr calls, then the faulty call (%s), then %d successful calls, close; sizes symbolic"
+                        % ("append session on a one-member base: " if append else "", nold, FAULTS[fault], after))
     eng, st = c08.mk_engine()
     sizes = [eng.sym_int("size%d" % i, 40) for i in range(nold + after + 1)]
+    sym = RC.symbols(eng, "f") if append else None
+    nbase = 1 if append else 0
 
     def harness(e):
         st.pop("compressors", None)
-        z, fp = S.new_archive(e, header_mode="raw")
+        if append:
+            entries, layout = RC.build(e, "f", [1], {}, sym)
+            z, fp, w = X.setup_read(e, entries, layout)
+            z.attrs["mode"] = "a"
+            z.attrs["encoded_header_mode"] = False
+            e.method(z, "_prepare_append", None, None)
+        else:
+            z, fp = S.new_archive(e, header_mode="raw")
         good = []
 
         def ok_call(i):
@@ -102,29 +115,33 @@ def failed_write(nold, fault, after):
         if "ref_error" in o:
             return False
         files, mm = o["ref"]["files"], o["map"]
-        c.append(len(files) == len(o["good"]))
-        if len(files) != len(o["good"]):
+        c.append(len(files) == nbase + len(o["good"]))
+        if len(files) != nbase + len(o["good"]):
             return c
-        comp = o["comps"][0] if o["comps"] else None
+        if append:
+            # the member of the base archive is still there, with its size and CRC
+            c.append(eng.compare(ast.Eq(), mm[0]["size"], sym["size"][0]))
+            c.append(mm[0]["crc"] is not None and eng.compare(ast.Eq(), mm[0]["crc"], sym["crc"][0]))
+        comp = o["comps"][-1] if o["comps"] else None
         for pos, (nm, i) in enumerate(o["good"]):
-            c.append(files[pos].get("name_units") == [ord(ch) for ch in nm])
+            c.append(files[nbase + pos].get("name_units") == [ord(ch) for ch in nm])
             if comp is None or pos >= len(comp.members):
                 return False
             insize, crc = comp.members[pos]
-            c.append(eng.compare(ast.Eq(), mm[pos]["size"], sizes[i]))
-            c.append(mm[pos]["crc"] is not None)
-            if mm[pos]["crc"] is not None:
-                c.append(eng.compare(ast.Eq(), mm[pos]["crc"], crc))
+            c.append(eng.compare(ast.Eq(), mm[nbase + pos]["size"], sizes[i]))
+            c.append(mm[nbase + pos]["crc"] is not None)
+            if mm[nbase + pos]["crc"] is not None:
+                c.append(eng.compare(ast.Eq(), mm[nbase + pos]["crc"], crc))
         return c
 
     decide(eng, harness, post, {"size%d" % i: s for i, s in enumerate(sizes)}, r,
            describe=lambda o: "raised=%s later=%s members=%s" % (o["raised"], o["later_exc"], len(o["good"])))
-    _cex(r, "failed_write", lambda w_: dict(module="vf.props.c15", func="replay", kwargs=dict(nold=nold, fault=fault, after=after)),
+    _cex(r, "failed_write", lambda w_: dict(module="vf.props.c15", func="replay", kwargs=dict(nold=nold, fault=fault, after=after, append=append)),
          signature=lambda w_: {"obligation": "failed_write", "fault": "source" if fault in ("src_before", "src_midway", "open_fails", "src_valueerror") else fault})
     return r
 
 
-def replay(nold, fault, after):
+def replay(nold, fault, after, append=False):
     import os
     import tempfile
 
@@ -153,7 +170,13 @@ def replay(nold, fault, after):
     p = os.path.join(d, "a.7z")
     expect = {}
     try:
-        z = py7zr.SevenZipFile(p, "w", filters=[{"id": py7zr.FILTER_COPY}])
+        if append:
+            with py7zr.SevenZipFile(p, "w", filters=[{"id": py7zr.FILTER_COPY}]) as z0:
+                z0.writestr(b"base member", "base.bin")
+            expect["base.bin"] = b"base member"
+            z = py7zr.SevenZipFile(p, "a", filters=[{"id": py7zr.FILTER_COPY}])
+        else:
+            z = py7zr.SevenZipFile(p, "w", filters=[{"id": py7zr.FILTER_COPY}])
 
         def ok(i):
             data = bytes([65 + i]) * (10 + i)
@@ -235,4 +258,9 @@ def units(tier):
             for after in ((0, 1) if tier == "quick" else (0, 1, 2)):
                 us.append(Unit("failed_write[%s,nold=%d,after=%d]" % (fault, nold, after), M, "failed_write",
                                dict(nold=nold, fault=fault, after=after), 900))
+    # the same faults as the FIRST call of an append session (then 0 or 1 successful calls)
+    for fault in FAULTS:
+        for after in ((0, 1) if tier == "quick" else (0, 1, 2)):
+            us.append(Unit("failed_write[append,%s,after=%d]" % (fault, after), M, "failed_write",
+                           dict(nold=0, fault=fault, after=after, append=True), 900))
     return us
